@@ -561,6 +561,46 @@ func comparatorValued(c *Ctx, v ssa.Value, cmps map[ssa.Value]bool, d int) bool 
 			}
 			return any
 		}
+		// a field of a private search-state struct (`p.cmp` of keyProbe{…}): every store into that field of that
+		// struct type, anywhere in the package, is a comparator result (or a constant, or the field copied over)
+		if fa, ok := ld.X.(*ssa.FieldAddr); ok {
+			st := fa.X.Type()
+			if pt, isP := st.Underlying().(*types.Pointer); isP {
+				st = pt.Elem()
+			}
+			if nt, isN := types.Unalias(st).(*types.Named); isN && nt.Obj().Pkg() != nil && nt.Obj().Pkg().Path() == ir.MastPath && nt.Obj().Name() != "Mast" && nt.Obj().Name() != "mastNode" && nt.Obj().Name() != "Node" {
+				any := false
+				for _, fn := range c.P.Funcs {
+					for _, b := range fn.Blocks {
+						for _, ins := range b.Instrs {
+							sto, ok := ins.(*ssa.Store)
+							if !ok {
+								continue
+							}
+							fa2, ok := sto.Addr.(*ssa.FieldAddr)
+							if !ok || fa2.Field != fa.Field {
+								continue
+							}
+							t2 := fa2.X.Type()
+							if pt, isP := t2.Underlying().(*types.Pointer); isP {
+								t2 = pt.Elem()
+							}
+							if !types.Identical(types.Unalias(t2), nt) {
+								continue
+							}
+							if _, isC := sto.Val.(*ssa.Const); isC {
+								continue
+							}
+							if !comparatorValued(c, sto.Val, cmps, d+1) {
+								return false
+							}
+							any = true
+						}
+					}
+				}
+				return any
+			}
+		}
 		if fv, ok := ld.X.(*ssa.FreeVar); ok {
 			if b, ok := bindingOf(fv).(*ssa.Alloc); ok {
 				stores, _ := ir.AllCellStores(b)
